@@ -118,7 +118,7 @@ class Active:
         if fam == 4:
             if self.mode == "relall":
                 pool = r.choice([1, 3])
-                cands = [(pool, a) for a in range(V4[pool][0] + 1, V4[pool][0] + 9)
+                cands = [(pool, a) for a in range(V4[pool][0] + 1, V4[pool][0] + 5)
                          if (pool, a) not in self.used[4] and a % 2 == par]
                 if not cands:
                     return None
@@ -269,7 +269,11 @@ def gen_hist(rng, mode, nops):
             y = rng.random()
             if mode == "stale" and m >= 2 and y < 0.6:
                 if rng.random() < 0.6:
-                    ops.append("R:%d:%d" % (g, rng.randint(1, m - 1)))
+                    # prefer an update of a session whose release has been delivered since
+                    cand = [k for k in range(1, m) if not sent[g][k - 1][0] and
+                            any(d and key == sent[g][k - 1][1] for d, key in sent[g][k:m])]
+                    k = rng.choice(cand) if cand and rng.random() < 0.7 else rng.randint(1, m - 1)
+                    ops.append("R:%d:%d" % (g, k))
                 else:
                     a = rng.randint(1, m - 1)
                     ops.append("P:%d:%d:%d" % (g, a, rng.randint(a, m - 1)))
@@ -293,6 +297,17 @@ def gen_hist(rng, mode, nops):
         while nxt[g] < len(sent[g]):
             ops.append("D:%d" % g)
             nxt[g] += 1
+    if mode == "stale":
+        # late retransmissions after everything was delivered
+        for g in (1, 2):
+            m = nxt[g]
+            for _ in range(rng.randint(0, 2)):
+                if m < 2:
+                    break
+                cand = [k for k in range(1, m) if not sent[g][k - 1][0] and
+                        any(d and key == sent[g][k - 1][1] for d, key in sent[g][k:m])]
+                k = rng.choice(cand) if cand and rng.random() < 0.7 else rng.randint(1, m - 1)
+                ops.append("R:%d:%d" % (g, k))
     if mode == "clean" and rng.random() < 0.2:
         ops.append("D:1")                      # nothing left: no-op
     return "hist %s %d %d %s %s" % (mode, cap, rng.choice([1, 2, 1000]), " ".join(pool_tokens(mode)), " ".join(ops))
